@@ -56,6 +56,10 @@ def check(model: Model, rep: Report, tier: str):
         y10(model, rep)
     with rep.isolated():
         y12(model, rep)
+    from .c09 import p6
+    with rep.isolated():
+        share_rule(rep, model, p6, "C17.Y13", "what the circuit builders are told about a layer is the layer: get_gate_sequence_indices / get_park_sequence_indices / "
+                   "get_active_ancilla_indices list every gate and every park (on a qubit of the code) of layer i, each mapped through the identifier -> index map (= C09.P6)")
     from .c03 import h6
     from ..resolve import CallGraph
     with rep.isolated():
